@@ -35,7 +35,8 @@ class Cases:
     def close(self):
         self.vp.datetime = self._orig
 
-    def judge(self, kind, pol, xml=None, req=None, now=NOW, strict=True, desc=None, expect_load_error=False):
+    def judge(self, kind, pol, xml=None, req=None, now=NOW, strict=True, desc=None, expect_load_error=False, built=None):
+        """built: 'accept' | 'reject' | None - what the document was built to be (honest / tampered), independent of any parsing"""
         """Either xml (parsed by the implementation) or a ready kskm Request object."""
         from kskm.ksr.load import request_from_xml
         from kskm.ksr.validate import validate_request
@@ -45,8 +46,8 @@ class Cases:
             if lr[0] != "ok":
                 # rejected by the loader: the property's "rejected" outcome; nothing for the model to judge
                 self.load_rejects += 1
-                self.meta.append({"kind": kind, "desc": {**(desc or {}), "loader": lr[2]}, "spec_ok": expect_load_error is not False or True,
-                                  "spec_msg": "", "key": None, "no_case": True})
+                self.meta.append({"kind": kind, "desc": {**(desc or {}), "loader": lr[2]}, "spec_ok": built != "accept",
+                                  "spec_msg": f"an honestly generated request is refused by the loader ({lr[2]})", "key": None, "no_case": True, "xml": xml})
                 return None
             req = lr[1]
         PinnedDT.pinned = now
@@ -71,8 +72,10 @@ class Cases:
             d.update(desc)
         if xml is not None:
             d["xml_len"] = len(xml)
-        self.meta.append({"kind": kind, "desc": d, "spec_ok": acc == want, "key": None, "xml": xml,
-                          "spec_msg": f"implementation {'accepts' if acc else 'rejects (' + r[2] + ')'} but the documented rules say {'accept' if want else 'reject'}"})
+        ok, msg = acc == want, f"implementation {'accepts' if acc else 'rejects (' + r[2] + ')'} but the documented rules say {'accept' if want else 'reject'}"
+        if ok and built is not None and acc != (built == "accept"):
+            ok, msg = False, (f"an honestly generated request is rejected ({r[2]})" if built == "accept" else "a tampered request is accepted")
+        self.meta.append({"kind": kind, "desc": d, "spec_ok": ok, "key": None, "xml": xml, "spec_msg": msg})
         return acc
 
     def run(self, rep, props, prop_id, shard=60):
@@ -80,6 +83,9 @@ class Cases:
         runner = vlib.CaseRun(prop_id, "main", "From KV Require Import Base.Prelude Base.Exn Model.Data Model.KsrPolicy Checks.C06Check.",
                               "case", "check", shard=shard)
         results = runner.run(self.cases) if ok_build else [-1] * len(self.cases)
+        for m in self.meta:
+            if m.get("no_case") and not m["spec_ok"]:
+                rep.violation("impl-vs-spec", f"{m['kind']}: {m['spec_msg']}", {"kind": m["kind"], "case": m["desc"], "xml": (m.get("xml") or "")[:8000]})
         meta = [m for m in self.meta if not m.get("no_case")]
         for m in meta:
             if not m["spec_ok"] and m.get("xml"):
